@@ -45,9 +45,12 @@ type MemSession struct {
 	// OnWrite, when non-nil, is called synchronously for every datagram; a non-nil error
 	// is returned from WriteMessage (write failure injection) and the datagram is not logged.
 	OnWrite func(data []byte) error
-	MaxSize uint32
-	Remote  net.Addr
-	Local   net.Addr
+	// BeforeWrite, when non-nil, is called at the start of WriteMessage, before the message is encoded (a write that
+	// takes its time: a full socket buffer, a slow record layer).
+	BeforeWrite func(req *pool.Message)
+	MaxSize     uint32
+	Remote      net.Addr
+	Local       net.Addr
 	// Multicast log
 	Mcast [][]byte
 	// Dropped counts datagrams dropped because Out was full
@@ -89,6 +92,9 @@ func (s *MemSession) LocalAddr() net.Addr    { return s.Local }
 func (s *MemSession) NetConn() net.Conn      { return nil }
 
 func (s *MemSession) WriteMessage(req *pool.Message) error {
+	if s.BeforeWrite != nil {
+		s.BeforeWrite(req)
+	}
 	data, err := req.MarshalWithEncoder(coder.DefaultCoder)
 	if err != nil {
 		return err
